@@ -142,7 +142,7 @@ def step (line : String) : String :=
     | _, _ => "bad-op"
   | "l1" :: rest =>
     match (do let order ← nat; let lam ← rat; let n ← nat
-              let y ← many n rat; let t ← many n rat; let g ← many n rat
+              let y ← many n orat; let t ← many n rat; let g ← many n orat
               pure (order, lam, y, t, g)).run rest with
     | some ((order, lam, y, t, g), []) =>
       if order ≠ 1 ∧ order ≠ 2 then "bad-op" else
